@@ -134,12 +134,19 @@ def run_cfg(method, n, orders):
         q = real('q')
         r = Recip(q)
         QH = [q.t > 0, q.t < 1]
+        rule0 = None
         for order in orders:
             solve.GROUP[0] = 'cfg[%s,n=%d]/order=%d/' % (method, n, order)
             CTX.reset()
             fd.FD_RULES = SymKeyDict()
-            del PINV_LOG[:]
-            rule = fd.LogRule(n=n, method=method, order=order)
+            n_before = len(PINV_LOG)
+            # one rule object per (method, n), re-configured through its `order` attribute for every further order
+            # (the configuration is whatever the attributes say at the time of the call)
+            if order == orders[0] or rule0 is None:
+                rule0 = fd.LogRule(n=n, method=method, order=order)
+            else:
+                rule0.order = order
+            rule = rule0
             mo, rs = rule.method_order, rule.richardson_step
             # H: requested order honoured (property sentence 1: truncation order at least the requested order)
             solve.fact('H:method_order>=order', mo >= order, note='method_order=%d order=%d' % (mo, order))
@@ -151,16 +158,25 @@ def run_cfg(method, n, orders):
             hs0 = SymArr([[real('H%d' % k)] for k in range(40)])
             # first call with a long table just to learn the rule length the code uses
             der, hh = rule._apply(fdel0, hs0, r)
-            if len(PINV_LOG) != 1:
-                if len(PINV_LOG) == 0:
-                    raise NeedsConcrete('rule() did not call pinv')
-            M, P = PINV_LOG[-1]
+            if len(PINV_LOG) > n_before:
+                M, P = PINV_LOG[-1]
+            else:
+                # the (emptied) process-wide cache cannot have served this rule: it comes from some other cache.
+                # Identify the inverse it was taken from by its symbols and verify it against the CURRENT configuration.
+                import re as _re
+                w0 = rule.rule(r)
+                mm_ = _re.search(r'P(\d+)_\d+_\d+', str(lift(asobj(w0).ravel()[0]).t))
+                solve.fact('A:rule-traceable-to-an-inverted-moment-matrix', mm_ is not None and int(mm_.group(1)) < len(PINV_LOG))
+                if mm_ is None or int(mm_.group(1)) >= len(PINV_LOG):
+                    continue
+                M, P = PINV_LOG[int(mm_.group(1))]
+            n_mid = len(PINV_LOG)
             T = M.shape[0]
             K = T + 2
             solve.fact('A:rows(long)', len(der) == 40 - (T - 1) and len(hh) == len(der))
             fdel, hs = fdel0[:K], hs0[:K]
             der, hh = rule._apply(fdel, hs, r)
-            solve.fact('A:cache-hit', len(PINV_LOG) == 1, note='second call with the same ratio must reuse the cached inverse')
+            solve.fact('A:cache-hit', len(PINV_LOG) == n_mid, note='second call with the same ratio must reuse the cached inverse')
             solve.fact('A:rows', len(der) == K - (T - 1) and len(hh) == len(der) and np.shape(der) == (3, 1))
             sign = -1 if rule._flip_fd_rule else 1
             idx = (n - 1) // rs
@@ -403,7 +419,9 @@ def replay_case(ob):
             kind = 'requested-order'
         q = model_float(ob.get('model'), 'q', None)
         ratios = [2.0, 1.6, 4.0] + ([1.0 / q] if q and 0.05 < q < 0.95 else [])
-        return dict(kind='C06.' + kind, method=method, n=n, order=order, step_ratios=ratios, x=0.3, h=0.5)
+        ords = grid('quick')[1] if ob.get('tier', 'quick') == 'quick' else grid('thorough')[1]
+        hist = [o for o in ords if o < order] if order in ords else []
+        return dict(kind='C06.' + kind, method=method, n=n, order=order, step_ratios=ratios, x=0.3, h=0.5, history=hist)
     mm = re.search(r'ints\[(\w+)\]', ob['name'])
     if mm:
         model = ob.get('model') or {}
@@ -412,7 +430,8 @@ def replay_case(ob):
         except ValueError:
             n, order = 1, 2
         return dict(kind='C06.requested-order' if ':H' in ob['name'] else 'C06.exact', method=mm.group(1),
-                    n=max(1, min(n, 12)), order=max(1, min(order, 12)), step_ratios=[2.0, 1.6], x=0.3, h=0.5)
+                    n=max(1, min(n, 12)), order=max(1, min(order, 12)), step_ratios=[2.0, 1.6], x=0.3, h=0.5,
+                    scan=True)
     mm = re.search(r'P:\[(\w+),n=(\d+),order=(\d+)\]', ob['name'])
     if mm:
         return dict(kind='C06.pairing', method=mm.group(1), n=int(mm.group(2)), order=int(mm.group(3)))
